@@ -562,10 +562,32 @@ def cv10(prog, rr):
                 if reads(cls, n.func.attr, attr, depth + 1, seen):
                     return True
         return False
+    def covered_set_honours_at_least(c):
+        """get_coverage is computed from the not-yet-covered set; that set shrinks only under a test reading at_least"""
+        rem = []
+        for name, f in c.methods.items():
+            for n in walk_local(f.node):
+                if isinstance(n, ast.Call) and recv_text(n) == "self.unhit_s" and call_name(n) in ("remove", "discard"):
+                    rem.append((f, n))
+        if not rem:
+            return False
+        for f, n in rem:
+            tests = [t for t, pos in _guards(f.node, n) if pos]
+            ok = False
+            for t in tests:
+                if "at_least" in t:
+                    ok = True
+                for nm in [x for x in ast.walk(ast.parse(t, mode="eval")) if isinstance(x, ast.Name)]:
+                    for a in walk_local(f.node):
+                        if isinstance(a, ast.Assign) and any(isinstance(tg, ast.Name) and tg.id == nm.id for tg in a.targets) and "at_least" in norm(a.value):
+                            ok = True
+            if not ok:
+                return False
+        return True
     for cn in ("CoverpointModel", "CoverpointCrossModel"):
         c = prog.cls(cn)
-        ok = reads(c, "get_coverage", "at_least")
-        rr.inst("%s.get_coverage reads at_least: %s" % (cn, ok))
+        ok = reads(c, "get_coverage", "at_least") or (reads(c, "get_coverage", "unhit_s") and covered_set_honours_at_least(c))
+        rr.inst("%s.get_coverage depends on at_least: %s" % (cn, ok))
         if not ok:
             f = prog.lookup(c, "get_coverage")
             rr.finding(f, f.node, cn + ".get_coverage", "CV10: the returned percentage does not depend on options.at_least (a bin hit once counts as covered "
